@@ -52,6 +52,16 @@ import (
 //                service.NewTransition with real validation.
 //   varyingThresholds : labelled experiment, never decides (see DESIGN C11).
 //
+// Known finding c11KnownKey (goloop not repaired because its own unit test pins the boundary):
+// a block accepted by the code and refused by the model is excused iff all its timestamps are in
+// the window and EVERY duplicate it carries is an id whose every holder on the path (a) is
+// reached by the lookup through tracker objects (c11TrackerReached) and (b) has ts == T_holder+th.
+// Then, if the finding is listed (VERIF_KNOWN), the block is taken as accepted (the id is now
+// held twice on that chain) and the history goes on; any later repeat of it is decided normally.
+// Everything else (same-block repeat, holder only reachable through the manager/DB, any other
+// timestamp, window edges) stays a violation. Sub-check "knownfinding" replays the two minimal
+// inputs without draws so that the KNOWN-FINDING line shows on every run while the defect exists.
+//
 // What is NOT decided: over-rejection (the code refusing a block the model accepts) is not
 // forbidden by the statement; it is counted ("overreject-not-decided") and the block is treated
 // as rejected. Forks that compete with an already finalized block are dead in a real node and
@@ -105,6 +115,29 @@ type c11Node struct {
 	committed bool
 	dead      bool
 	afterRst  bool // committed content only reachable through the database (after restart)
+	// linked mirrors tracker.parent != nil: the block's tracker was created while its parent's
+	// tracker was still in use (tracker.New) and the block has not been committed since.
+	linked bool
+}
+
+// c11KnownKey identifies the known finding: tracker.Has skips the lookup for ts >= T+th, so an id
+// held by an ancestor whose *tracker* is consulted (an unfinalized ancestor, or one finalized
+// while an unfinalized descendant created earlier still points at its tracker) and whose
+// timestamp is exactly that ancestor's block time + threshold is not seen.
+const c11KnownKey = "C11-unfinalized-ancestor-ts-eq-T-plus-th"
+
+// c11TrackerReached reports whether the lookup that starts at parent's tracker walks through
+// tracker objects down to h's tracker (instead of leaving to the manager before).
+func c11TrackerReached(parent, h *c11Node) bool {
+	for cur := parent; cur != nil; cur = cur.parent {
+		if cur == h {
+			return true
+		}
+		if !cur.linked {
+			return false
+		}
+	}
+	return false
 }
 
 func (n *c11Node) isAncestorOrSelf(o *c11Node) bool {
@@ -245,6 +278,7 @@ func c11RunTree(rt *rapid.T, rec *ev.Rec, maxOps int, vary bool) (string, string
 				T = parent.T + c11Delta(rt, th)
 			}
 			n := &c11Node{idx: len(w.nodes), parent: parent, height: parent.height + 1, T: T, th: th}
+			n.linked = !(parent.committed && !parent.linked) // tracker.New: committed parent without parent -> manager.NewTracker
 			// ids on the path
 			var path []*c11Tx
 			pathOwner := map[*c11Tx]*c11Node{}
@@ -347,18 +381,31 @@ func c11RunTree(rt *rapid.T, rec *ev.Rec, maxOps int, vary bool) (string, string
 			}
 			dup := ""
 			seen := map[string]bool{}
-			onPath := map[string]*c11Node{}
-			for tx, o := range pathOwner {
-				onPath[string(tx.id)] = o
+			holders := map[string][]*c11Node{} // nearest first
+			for p := parent; p != nil; p = p.parent {
+				for _, tx := range p.txs {
+					holders[string(tx.id)] = append(holders[string(tx.id)], p)
+				}
 			}
 			var dupClasses []string
+			onlyKnown := true // every duplicate of the block is of the known-finding kind
+			knownViaFinalized := false
 			for _, tx := range n.txs {
 				if seen[string(tx.id)] {
+					onlyKnown = false
 					dupClasses = append(dupClasses, "dup-same-block")
 					if dup == "" {
 						dup = tx.String() + " repeated in the block"
 					}
-				} else if o, ok := onPath[string(tx.id)]; ok {
+				} else if hs, ok := holders[string(tx.id)]; ok {
+					o := hs[0]
+					for _, h := range hs {
+						if !(tx.ts == h.T+h.th && c11TrackerReached(parent, h)) {
+							onlyKnown = false
+						} else if h.committed {
+							knownViaFinalized = true
+						}
+					}
 					cl := "dup-unfinalized-ancestor"
 					if o.committed {
 						cl = "dup-finalized-ancestor"
@@ -420,6 +467,16 @@ func c11RunTree(rt *rapid.T, rec *ev.Rec, maxOps int, vary bool) (string, string
 			if allIn && dup == "" && hasForeign {
 				lab["id-only-in-sibling-fork"] = true
 			}
+			if codeAccepts && !modelAccepts && !vary && allIn && onlyKnown && rec.Known(c11KnownKey) {
+				// listed known finding: the code now holds the id in this block as well; go on
+				lab["known-finding-block-accepted"] = true
+				rec.Label("blocks-accepted-by-known-finding")
+				if knownViaFinalized {
+					rec.Label("blocks-accepted-by-known-finding:ancestor-finalized-but-reached-through-tracker")
+				}
+				last = n
+				continue
+			}
 			if codeAccepts && !modelAccepts {
 				return finish(fmt.Sprintf("block B%d (T=%d th=%d) accepted although %s; history: %s", n.idx, T, th,
 					map[bool]string{true: "a timestamp is outside (T-th,T+th]", false: dup}[dup == ""], strings.Join(w.desc, " | ")))
@@ -460,6 +517,7 @@ func c11RunTree(rt *rapid.T, rec *ev.Rec, maxOps int, vary bool) (string, string
 			}
 			for p := n; p != nil; p = p.parent {
 				p.committed = true
+				p.linked = false // tracker.Commit: parent committed first, then parent pointer dropped
 			}
 			for _, o := range w.nodes {
 				if !n.isAncestorOrSelf(o) {
@@ -507,6 +565,7 @@ func c11RunTree(rt *rapid.T, rec *ev.Rec, maxOps int, vary bool) (string, string
 				}
 				fin.tracker = tr
 				fin.dead = false
+				fin.linked = false
 				last = fin
 			}
 			w.desc = append(w.desc, "restart")
@@ -560,12 +619,86 @@ func c11Window(rt *rapid.T, rec *ev.Rec) {
 
 var c11ExpOnce sync.Once
 
+// c11DirectedTracker: th=1, B1 (T=2) holds x@3 = T+th, its child B2 (T=3, window (2,4]) holds x@3.
+func c11DirectedTracker() (violation, desc string) {
+	desc = "directed tracker: group=normal th=1 | B1<-B0 h=1 T=2 [x1@3] | B2<-B1 h=2 T=3 [x1@3]"
+	mgr, err := txlocator.NewManager(db.NewMapDB(), c11Logger)
+	if err != nil {
+		ev.Inconclusive("C11: txlocator.NewManager: %v", err)
+	}
+	defer mgr.Term()
+	x := c11NewTx(1, 3, module.TransactionGroupNormal)
+	root := mgr.NewTracker(module.TransactionGroupNormal, 0, 0, 1)
+	b1 := root.New(1, 2, 1)
+	if _, err := b1.Add(&c11List{txs: []*c11Tx{x}}, false); err != nil || service.CheckTxTimestamp(2-1, 2+1, x) != nil {
+		return "", desc // B1 itself refused: nothing to decide here (the generated checks decide windows)
+	}
+	b2 := b1.New(2, 3, 1)
+	_, addErr := b2.Add(&c11List{txs: []*c11Tx{x}}, false)
+	if addErr == nil && service.CheckTxTimestamp(3-1, 3+1, x) == nil {
+		return "block B2 (T=3 th=1) accepted although x1@3 already in its unfinalized parent B1 (T=2): " + desc, desc
+	}
+	return "", desc
+}
+
+// c11DirectedTransition: default threshold, B1 (T) holds a tx with ts = T+th, its child B2 (T+1) holds it again.
+func c11DirectedTransition() (violation, desc string, ok bool) {
+	e := c11NewEnv()
+	defer e.close()
+	T := int64(1_700_000_000_000_000)
+	th := service.ConfigTXTimestampThresholdDefault
+	tx := c11NewPTx(T+th, "c11-directed", 0)
+	desc = fmt.Sprintf("directed transitions: th=%d | B1<-B0 h=1 T=%d [%s] | B2<-B1 h=2 T=%d [%s]", th, T, c11TxName(tx), T+1, c11TxName(tx))
+	init := e.initTransition(nil)
+	b1 := service.NewTransition(init, nil, transaction.NewTransactionListFromSlice(e.dbase, []module.Transaction{tx}), common.NewBlockInfo(1, T), nil, false)
+	ve, xe, to := c11Exec(b1)
+	if to {
+		return "", desc, false
+	}
+	if ve != nil || xe != nil {
+		return "", desc, true
+	}
+	b2 := service.NewTransition(b1, nil, transaction.NewTransactionListFromSlice(e.dbase, []module.Transaction{tx}), common.NewBlockInfo(2, T+1), nil, false)
+	ve, _, to = c11Exec(b2)
+	if to {
+		return "", desc, false
+	}
+	if ve == nil {
+		return "transition for B2 passed validation although its only transaction is already in the unfinalized parent B1: " + desc, desc, true
+	}
+	return "", desc, true
+}
+
 func TestC11(t *testing.T) {
 	rec := ev.New("C11", "block trees over the real locator manager (fixed threshold per case from {1,2,10,default}, block times strictly increasing, "+
 		"<=6 tx per block with timestamps on the window edges, duplicates of ids from the same block / ancestors / sibling forks, random commits and restarts) "+
 		"plus window probes and chained real transitions; non-trivial = the history contains a block whose timestamps are all in (T-th,T+th] and that repeats an id "+
 		"of its own or of an ancestor on its chain (window probes: ts exactly on T-th, T-th+1, T+th, T+th+1); distinct by the rendered history")
 	defer rec.Flush(t)
+	// Directed, no draws, runs first: the minimal inputs of the known finding c11KnownKey, so that
+	// the KNOWN-FINDING line appears on every run while goloop has the defect (and a violation is
+	// reported when the finding is not listed). Silent once tracker.Has looks the id up.
+	t.Run("knownfinding", func(t *testing.T) {
+		v, desc := c11DirectedTracker()
+		rec.Case(desc, true, "directed", "directed-tracker")
+		if v != "" {
+			if !rec.Known(c11KnownKey) {
+				t.Fatalf("C11 violated: %s", v)
+			}
+			rec.Label("directed-known-finding-reproduced")
+		}
+		if v, desc, ok := c11DirectedTransition(); ok {
+			rec.Case(desc, true, "directed", "directed-transition")
+			if v != "" {
+				if !rec.Known(c11KnownKey) {
+					t.Fatalf("C11 violated: %s", v)
+				}
+				rec.Label("directed-known-finding-reproduced")
+			}
+		} else {
+			rec.Label("tr-timeout-skipped")
+		}
+	})
 	t.Run("tracker", func(t *testing.T) {
 		maxOps := ev.Pick(16, 32)
 		ev.Check(t, 8000, 60000, func(rt *rapid.T) {
@@ -818,6 +951,19 @@ type c11TNode struct {
 	committed bool
 	dead      bool
 	afterRst  bool
+	linked    bool // see c11Node.linked
+}
+
+func c11TReached(parent, h *c11TNode) bool {
+	for cur := parent; cur != nil; cur = cur.parent {
+		if cur == h {
+			return true
+		}
+		if !cur.linked {
+			return false
+		}
+	}
+	return false
 }
 
 func (n *c11TNode) isAncestorOrSelf(o *c11TNode) bool {
@@ -869,7 +1015,7 @@ func c11RunTransitions(rt *rapid.T, rec *ev.Rec, maxOps int) (violation string, 
 	if thMS != 0 {
 		// block 1 carries the threshold change; it is validated under the default threshold and
 		// none of its content is ever repeated
-		n := &c11TNode{idx: 1, parent: root, height: 1, T: t0}
+		n := &c11TNode{idx: 1, parent: root, height: 1, T: t0, linked: true}
 		n.txs = []module.Transaction{c11NewPTx(t0, "c11-th", thMS)}
 		n.tr = service.NewTransition(root.tr, nil, transaction.NewTransactionListFromSlice(e.dbase, n.txs), common.NewBlockInfo(1, t0), nil, false)
 		ve, xe, to := c11Exec(n.tr)
@@ -906,6 +1052,8 @@ func c11RunTransitions(rt *rapid.T, rec *ev.Rec, maxOps int) (violation string, 
 				T = parent.T + c11Delta(rt, th)
 			}
 			n := &c11TNode{idx: len(nodes), parent: parent, height: parent.height + 1, T: T}
+			n.linked = !(parent.committed && !parent.linked)
+			holders := map[string][]*c11TNode{} // nearest first
 			var path, pathIn, foreign []module.Transaction
 			owner := map[string]*c11TNode{}
 			for p := parent; p != nil; p = p.parent {
@@ -915,6 +1063,7 @@ func c11RunTransitions(rt *rapid.T, rec *ev.Rec, maxOps int) (violation string, 
 					}
 					path = append(path, tx)
 					owner[string(tx.ID())] = p
+					holders[string(tx.ID())] = append(holders[string(tx.ID())], p)
 					if c11InWindow(T, th, c11Ts(tx)) {
 						pathIn = append(pathIn, tx)
 					}
@@ -982,17 +1131,27 @@ func c11RunTransitions(rt *rapid.T, rec *ev.Rec, maxOps int) (violation string, 
 			dup := ""
 			var classes []string
 			seen := map[string]bool{}
+			onlyKnown, knownViaFinalized := true, false
 			for _, tx := range n.txs {
 				if !c11InWindow(T, th, c11Ts(tx)) {
 					allIn = false
 				}
 				id := string(tx.ID())
 				if seen[id] {
+					onlyKnown = false
 					classes = append(classes, "dup-same-block")
 					if dup == "" {
 						dup = c11TxName(tx) + " repeated in the block"
 					}
-				} else if o, ok := owner[id]; ok {
+				} else if hs, ok := holders[id]; ok {
+					o := hs[0]
+					for _, h := range hs {
+						if !(c11Ts(tx) == h.T+th && c11TReached(parent, h)) {
+							onlyKnown = false
+						} else if h.committed {
+							knownViaFinalized = true
+						}
+					}
 					cl := "dup-unfinalized-ancestor"
 					if o.committed {
 						cl = "dup-finalized-ancestor"
@@ -1030,7 +1189,17 @@ func c11RunTransitions(rt *rapid.T, rec *ev.Rec, maxOps int) (violation string, 
 			if !allIn {
 				lab["tr:block-with-out-of-window-ts"] = true
 			}
-			if ve == nil && !modelAccepts {
+			knownAccepted := false
+			if ve == nil && !modelAccepts && allIn && onlyKnown && rec.Known(c11KnownKey) {
+				// listed known finding: the chain now holds the id in this block as well
+				knownAccepted = true
+				lab["tr:known-finding-block-accepted"] = true
+				rec.Label("tr-blocks-accepted-by-known-finding")
+				if knownViaFinalized {
+					rec.Label("tr-blocks-accepted-by-known-finding:ancestor-finalized-but-reached-through-tracker")
+				}
+			}
+			if ve == nil && !modelAccepts && !knownAccepted {
 				why := dup
 				if why == "" {
 					why = "a timestamp is outside (T-th,T+th]"
@@ -1076,6 +1245,10 @@ func c11RunTransitions(rt *rapid.T, rec *ev.Rec, maxOps int) (violation string, 
 				}
 				p.committed = true
 			}
+			for p := n; p != nil; p = p.parent {
+				p.committed = true // the recursion of tracker.Commit reaches the init tracker too
+				p.linked = false
+			}
 			for _, o := range nodes {
 				if !n.isAncestorOrSelf(o) {
 					o.dead = true
@@ -1089,7 +1262,7 @@ func c11RunTransitions(rt *rapid.T, rec *ev.Rec, maxOps int) (violation string, 
 		default: // restart: new locator manager / init transition on the same database
 			var fin *c11TNode
 			for _, n := range nodes {
-				if n.committed && (fin == nil || n.height > fin.height) {
+				if n.committed && n.parent != nil && (fin == nil || n.height > fin.height) {
 					fin = n
 				}
 			}
@@ -1128,6 +1301,7 @@ func c11RunTransitions(rt *rapid.T, rec *ev.Rec, maxOps int) (violation string, 
 			}
 			fin.tr = tr
 			fin.dead = false
+			fin.linked = false
 			last = fin
 			d = append(d, "restart")
 			lab["tr:restart"] = true
